@@ -760,7 +760,7 @@ func serverDelegation(c *Ctx, rule string) {
 		}
 
 		// invalid bookmark class mapping is checked in R11.1; here: the handshake message is sent only after the watch was established
-		c.MustCut(rule, "handshake Send ⊣ {watch established without error}", f, p.CallTo("("+pkgAPI+".State_WatchServer).Send", "(google.golang.org/grpc.ServerStreamingServer[*]).Send"), CutSpec{Edges: FactEdge("nil(phi(*", "nil(*var:err)")}, 0)
+		c.MustCut(rule, "handshake Send ⊣ {watch established without error}", f, p.CallTo("("+pkgAPI+".State_WatchServer).Send", "(google.golang.org/grpc.ServerStreamingServer[*]).Send"), CutSpec{Edges: FactEdge("nil(phi(*", "nil(*var:error*)", "nil(call:(pkg/state.*).Watch*(*")}, 0)
 	}
 }
 
@@ -803,7 +803,7 @@ func eventTables(c *Ctx, rule string) {
 
 				sort.Strings(got)
 				c.Check(strings.Join(got, ",") == "Bookmark,Error,EventType,Old,Resource", rule, "server.mapEvent :: wire event carries EventType, Resource, Old, Error, Bookmark", al.Pos(), strings.Join(got, ","), "wire event fields: "+strings.Join(got, ","))
-				c.Check(Glob("*param#1.Bookmark", p.Desc(fields["Bookmark"])) || Glob("*var:event.Bookmark", p.Desc(fields["Bookmark"])), rule, "server.mapEvent :: Bookmark is the event's bookmark", al.Pos(), "yes", "Bookmark = "+p.Desc(fields["Bookmark"]))
+				c.Check(Glob("*param#1.Bookmark", p.Desc(fields["Bookmark"])) || Glob("*var:pkg/state.Event.Bookmark", p.Desc(fields["Bookmark"])), rule, "server.mapEvent :: Bookmark is the event's bookmark", al.Pos(), "yes", "Bookmark = "+p.Desc(fields["Bookmark"]))
 			}
 		}
 	}
@@ -812,31 +812,33 @@ func eventTables(c *Ctx, rule string) {
 	cTab := map[string]string{}
 
 	if f := p.Method(pkgClient, "Adapter", "watchAdapter"); c.NeedFunc(rule, f, cliT+".watchAdapter") {
-		for _, in := range Find(f, StoreToField("Event", "Type")) {
-			st := in.(*ssa.Store)
-			if !Glob("var:event.Type", p.Desc(st.Addr)) {
-				continue
+		// (independent of where the switch lives — in line or in a helper returning the mapped value: what counts
+		// is the Type in effect when the event is queued)
+		typeStore := func(in ssa.Instruction) bool {
+			return StoreToField("Event", "Type")(in)
+		}
+		sink := func(in ssa.Instruction) bool {
+			call, ok := in.(*ssa.Call)
+			if !ok || p.CalleeName(call) != "builtin.append" {
+				return false
 			}
 
-			for wname, wval := range wireEv {
-				bad, _ := p.Reach(Entry(f), func(i ssa.Instruction) bool { return i == in }, CutSpec{Edges: FactEdge("eq(*.EventType,const:" + wval + ")")})
-				if !bad {
-					cTab[wname] = strings.TrimPrefix(p.Desc(st.Val), "const:")
-				}
-			}
+			return strings.HasSuffix(call.Call.Args[0].Type().String(), "pkg/state.Event")
 		}
-		// EventType zero value (CREATED = 0) leaves event.Type at its zero value (Created = 0): count it if CREATED has no store
-		for wname, wval := range wireEv {
-			if _, ok := cTab[wname]; !ok && wval == "0" && stateEv["Created"] == "0" {
-				cTab[wname] = "0"
-			}
+
+		byName := p.CaseFieldTable(f, func(v string) string { return "eq(*.EventType,const:" + v + ")" }, wireEv, stateEv,
+			func(val string) InstrPred {
+				return func(in ssa.Instruction) bool { return typeStore(in) && p.Desc(in.(*ssa.Store).Val) == "const:"+val }
+			}, typeStore, sink, "0")
+		for wname, sval := range byName {
+			cTab[wname] = sval
 		}
 
 		for _, fld := range []string{"Resource", "Old", "Error"} {
 			n := 0
 
 			for _, in := range Find(f, StoreToField("Event", fld)) {
-				if Glob("var:event."+fld, p.Desc(in.(*ssa.Store).Addr)) {
+				if Glob("var:pkg/state.Event."+fld, p.Desc(in.(*ssa.Store).Addr)) {
 					n++
 				}
 			}
